@@ -84,6 +84,14 @@ CHECKS = {
          "40k programs per quick run (cells profile): cells in bindings, aliases, closures, arrays; all 12 assignment operators incl. failing ones; every read, every yielded value, the aliasing structure of results and the cells still reachable after an error are compared; ~8k matrix cases check that every reachable cell holds a value of its declared type.",
          "Trusts the reference heap model; matrix part trusts hook H1/H2 observations.",
          "DESIGN.md section 3, C13"),
+ "C05": ("repeated parse/run of generated and enumerated programs on fresh threads (fresh hash keys) with an all-repetitions-agree oracle (metamorphic: same input, different hash seeds), plus type-level determinism laws across instances",
+         "All unary matrix cells, order-sensitive hand-written programs, the documentation corpus, generated typed programs and random matrix cells are parsed and run 6 (quick) / 24 (thorough) times on fresh threads; acceptance, static type, value and error must coincide; generated type pairs must be ==, hash-equal and answer matches/|/conjoin identically across instances.",
+         "Hash keys come from the OS, not from VERIF_SEED: detection of an order-dependent defect is probabilistic per repetition; the check itself is deterministic on a correct tree.",
+         "DESIGN.md section 3 C05 and section 7"),
+ "C17": ("proptest-generated statement sequences split into REPL inputs (differential batch vs incremental route), double execution of one Code, and exhaustive create_call vs in-language call acceptance/result differential over the operand-type matrix",
+         "12k generated programs per quick run split into inputs of 1-3 statements and compared after every input on last result and all top-level variables; each program executed twice (equal results, disjoint cells, untouched interpreter); ~330k host-vs-language call comparisons incl. ill-typed and wrong-arity argument lists.",
+         "Acceptance differences between batch and incremental routes are allowed by the property and end the comparison of a case.",
+         "DESIGN.md section 3, C17"),
 }
 PENDING = {}
 props = [json.loads(l) for l in open(os.path.join(ROOT, "properties.jsonl"))]
